@@ -18,8 +18,13 @@ def finiteNumber (o : Oracle) : PyVal → Option Float
      | Option.none => Option.none)
   | _ => Option.none
 
-/-- `_finite_number(x) or 0.0` -/
-def numberOrZero (o : Oracle) (x : PyVal) : Float := (finiteNumber o x).getD 0.0
+/-- `_finite_number(x) or 0.0`, as written: `or` tests the truth value, so a finite number that is zero (`0.0` or `-0.0`) is
+    replaced by the literal `0.0` like `None` is (no comparison can tell `-0.0` from `0.0`; spelled out so that the translated
+    source — Run/C07_translated.lean — is equal to this on the nose, `Float` being opaque to the kernel) -/
+def numberOrZero (o : Oracle) (x : PyVal) : Float :=
+  match finiteNumber o x with
+  | some f => if f != 0.0 then f else 0.0
+  | Option.none => 0.0
 
 /-- `attrs.get(k, 0)` -/
 def getOrZero (attrs : PyVal) (k : String) : PyVal := if attrs.hasKey k then attrs.get k else .int 0
